@@ -300,8 +300,29 @@ def witness_trees(gname: str = "lang") -> List[Any]:
     return _TREES[gname]
 
 
+_DOMAIN_ERRORS = [0]
+
+
+def _count_domain_errors():
+    """ISLa evaluates an atom whose term is undefined (str.to.int of a non-numeral, ...) to false by raising and catching a
+    DomainError - in BOTH polarities, a documented deviation from SMT-LIB's total functions (C05 known finding).  On such a
+    tree neither F nor not F holds, so it cannot serve as a witness for a wrong rewrite: witnesses on which a DomainError was
+    raised are skipped (the constructor is counted)."""
+    import isla.z3_helpers as zh
+    if getattr(zh.DomainError, "_verif_counted", False):
+        return
+    orig = zh.DomainError.__init__
+
+    def counted(self, *a, **k):
+        _DOMAIN_ERRORS[0] += 1
+        orig(self, *a, **k)
+    zh.DomainError.__init__ = counted
+    zh.DomainError._verif_counted = True
+
+
 def verdict(formula: L.Formula, tree, gname: str = "lang") -> str:
     from isla.evaluator import evaluate
+    _count_domain_errors()
     try:
         return str(evaluate(formula, tree, GRAMMARS[gname]))
     except Exception as e:  # noqa
@@ -317,11 +338,16 @@ def find_witness(f1: L.Formula, f2: L.Formula, negated: bool, limit_s: float = 6
             continue
         if time.time() - t0 > limit_s:
             break
+        before = _DOMAIN_ERRORS[0]
         v1, v2 = verdict(f1, t, gname), verdict(f2, t, gname)
+        if _DOMAIN_ERRORS[0] != before:
+            continue    # an atom is undefined on this tree (see _count_domain_errors)
         if v1.startswith("raised") and v2.startswith("raised"):
             continue    # the program itself is outside evaluate's domain on this tree
         if v1.startswith("raised") or v2.startswith("raised"):
             return dict(tree=str(t), v1=v1, v2=v2)
+        if "UNKNOWN" in (v1, v2):
+            continue    # the evaluator gave up (its Z3 queries have wall-clock timeouts): no verdict to compare (C03's subject)
         if negated:
             if {v1, v2} != {"TRUE", "FALSE"}:
                 return dict(tree=str(t), v1=v1, v2=v2)
